@@ -76,7 +76,7 @@ func (e *Engine) verifyFunction(fn *ssa.Function, opt *Options) *FuncResult {
 			continue
 		}
 		env := &senv{t: t, vars: map[string]*sv{}, lets: map[string]ast.Expr{}}
-		term, err := t.evalBool(ax.Expr, env, t.oldHeaps, t.oldHeaps)
+		term, err := t.evalAssume(ax.Expr, env, t.oldHeaps, t.oldHeaps)
 		if err != nil {
 			res.Fatal = append(res.Fatal, fmt.Sprintf("axiom %s: %v", ax.Name, err))
 			continue
@@ -383,7 +383,6 @@ func (e *Engine) discharge(res *FuncResult, t *tr, body string, opt *Options) {
 		return st, r.millis, r.errors
 	}
 	var wg sync.WaitGroup
-	var mu sync.Mutex
 	nOpen := 0
 	for k := range res.Obls {
 		wg.Add(1)
@@ -391,13 +390,13 @@ func (e *Engine) discharge(res *FuncResult, t *tr, body string, opt *Options) {
 			defer wg.Done()
 			o := res.Obls[k]
 			st, ms, errs := run(k, "z3-new", per)
-			mu.Lock()
+			vmu.Lock()
 			res.SolverMs += ms
 			o.Status, o.Solver, o.Millis = st, "z3-new", ms
 			if len(errs) > 0 {
 				res.Fatal = append(res.Fatal, "solver error: "+errs[0])
 			}
-			mu.Unlock()
+			vmu.Unlock()
 			if st == "unsat" || st == "error" {
 				if !opt.Thorough || st == "error" {
 					return
@@ -405,10 +404,10 @@ func (e *Engine) discharge(res *FuncResult, t *tr, body string, opt *Options) {
 			}
 			if st != "unsat" {
 				// a function with many open obligations is broken anyway: do not spend three solvers on each of them
-				mu.Lock()
+				vmu.Lock()
 				nOpen++
 				over := nOpen > 12
-				mu.Unlock()
+				vmu.Unlock()
 				if over {
 					return
 				}
@@ -416,7 +415,7 @@ func (e *Engine) discharge(res *FuncResult, t *tr, body string, opt *Options) {
 			// second opinion (always in thorough mode: cross-check)
 			for _, solver := range []string{"z3", "cvc5"} {
 				st2, ms2, _ := run(k, solver, per)
-				mu.Lock()
+				vmu.Lock()
 				res.SolverMs += ms2
 				if st2 == "unsat" && o.Status != "unsat" {
 					o.Status, o.Solver, o.Millis = "unsat", solver, ms2
@@ -426,7 +425,7 @@ func (e *Engine) discharge(res *FuncResult, t *tr, body string, opt *Options) {
 				} else if st2 == "sat" && o.Status != "unsat" {
 					o.Note = strings.TrimSpace(o.Note + " " + solver + ":sat")
 				}
-				mu.Unlock()
+				vmu.Unlock()
 				if o.Status == "unsat" && !opt.Thorough {
 					break
 				}
